@@ -8,6 +8,7 @@ package treeauth
 // driver intended.
 
 import (
+	"bytes"
 	"crypto/sha256"
 	"encoding/json"
 	"fmt"
@@ -17,6 +18,8 @@ import (
 	"sort"
 	"sync"
 	"testing"
+
+	"github.com/ipfs/go-cid"
 
 	"github.com/anyproto/any-sync/commonspace/object/tree/objecttree"
 	"github.com/anyproto/any-sync/commonspace/object/tree/treechangeproto"
@@ -35,6 +38,7 @@ type logMember struct {
 	CidOk bool   `json:"cidOk"`
 	SigOk bool   `json:"sigOk"`
 	Tw    int    `json:"tw"`
+	Al    bool   `json:"al"`
 }
 
 type recordRun struct {
@@ -55,7 +59,7 @@ type recordRun struct {
 }
 
 var allEvents = []string{"addW", "addR", "joinW", "req", "accW", "promote", "demote", "remove", "other"}
-var allMuts = []string{"bytes", "bytesReid", "id", "idDup", "swap", "unsigned", "twin", "twin"}
+var allMuts = []string{"bytes", "bytesReid", "id", "idAlias", "idAlias", "idDup", "swap", "unsigned", "twin", "twin"}
 
 func (rr *recordRun) emit(v any) { rr.lines = append(rr.lines, v) }
 
@@ -128,6 +132,25 @@ func (rr *recordRun) stepFuture() {
 	rr.deliver([]*treechangeproto.RawTreeChangeWithId{raw}, []int{rr.futureId}, []string{"W citing the not yet received record of " + e}, "raw")
 }
 
+// stepOrphan: a valid child arrives before its parent (it cannot attach), then the parent arrives
+// together with a copy of the child that has the same id but altered bytes
+func (rr *recordRun) stepOrphan() {
+	tw := rr.tw
+	aw := tw.aw
+	before := tw.observe()
+	parent := tw.buildChange("W", aw.recId(aw.n()), before.heads, before.root, false)
+	child := tw.buildChange("W", aw.recId(aw.n()), []string{parent.Id}, before.root, false)
+	pid, cid := rr.next, rr.next+1
+	rr.next += 2
+	tw.bind(pid, parent.Id)
+	tw.bind(cid, child.Id)
+	rr.deliver([]*treechangeproto.RawTreeChangeWithId{child}, []int{cid}, []string{"valid child of a parent not delivered yet"}, "raw")
+	tw.bind(pid, parent.Id)
+	tw.bind(cid, child.Id)
+	forged, what := tw.mutate(member{Id: cid, Au: "W", Named: "W", Cite: aw.n()}, "bytes", rr.rnd.Intn(600), child)
+	rr.deliver([]*treechangeproto.RawTreeChangeWithId{parent, forged}, []int{pid, cid}, []string{"the parent", "same id as the child delivered before, " + what}, "raw")
+}
+
 // stepLocal: a change created locally (AddContent) with the key of S, W or X
 func (rr *recordRun) stepLocal() {
 	tw := rr.tw
@@ -175,6 +198,12 @@ func (rr *recordRun) describe(model int, raw *treechangeproto.RawTreeChangeWithI
 	tw := rr.tw
 	rd := tw.read(raw.Id, raw.RawChange)
 	m := logMember{Id: model, Kind: "ch", Au: "X", Named: "X", Cite: tw.aw.n() + 1, Par: []int{}, Snap: unknownModelId, CidOk: rd.cidOk, SigOk: rd.sigOk}
+	// another spelling of the right digest?
+	if !rd.cidOk {
+		if c, err := cid.Decode(raw.Id); err == nil && bytes.Equal(c.Hash(), canonicalCid(raw.RawChange).Hash()) {
+			m.Al = true
+		}
+	}
 	if !rd.parsed {
 		// unreadable bytes: never authentic, whatever else they say
 		m.SigOk = false
@@ -456,6 +485,8 @@ func (rr *recordRun) run(steps int) {
 			rr.stepLocal()
 		case p < 22 && rr.futureEv == "" && aw.n() < 8:
 			rr.stepFuture()
+		case p < 23:
+			rr.stepOrphan()
 		default:
 			// the filtering trees re-filter on reopen (a different path, not part of this model)
 			if !filt && kind != "reduced" {
